@@ -51,6 +51,8 @@ class Gen:
     def lst(self, depth=2, maxlen=12, improper=0.0, minlen=0):
         r = self.rng
         n = r.choice([0, 1, 2, 3, 4, 5, 7, maxlen])
+        if r.random() < 0.04:
+            n = r.choice([64, 150, 400])         # long lists: the library procedures are written recursively in Scheme
         n = max(n, minlen)
         items = [self.datum(depth - 1, 4) for _ in range(n)]
         if items and r.random() < improper:
@@ -59,7 +61,10 @@ class Gen:
 
     def ints(self, maxlen=12):
         r = self.rng
-        return [r.randint(-5, 9) for _ in range(r.choice([0, 1, 2, 3, 5, maxlen]))]
+        n = r.choice([0, 1, 2, 3, 5, maxlen])
+        if r.random() < 0.04:
+            n = r.choice([64, 150, 400])
+        return [r.randint(-5, 9) for _ in range(n)]
 
     def deep(self, n):
         """a list on which c[ad]{2,3}r paths of length n exist (sometimes not: the too-short case)"""
@@ -114,7 +119,7 @@ class Gen:
         if p in ("list-tail", "list-ref"):
             l = self.lst(2, improper=0.15 if p == "list-tail" else 0.0)
             n = len(l.items) if isinstance(l, Dot) else len(l)
-            k = r.choice([-1, 0, 0, 1, n - 1, n, n + 1, r.randint(0, max(0, n))])
+            k = r.choice([-1, 0, 0, 1, n - 1, n - 1, n, n + 1, r.randint(0, max(0, n))])
             return [S(p), q(l), k]
         if p == "last-pair":
             return [S("last-pair"), q(self.lst(2, improper=0.3))]
